@@ -4,17 +4,20 @@ three-way token merge.  Not a parser: bracket matching is done by the callers.""
 import re
 
 class Tok:
-    __slots__ = ("kind", "text", "ws", "line", "src")
+    __slots__ = ("kind", "text", "ws", "line", "src", "pos")
     def __init__(self, kind, text, ws, line, src=None):
         self.kind = kind      # id | num | str | chr | life | punct
         self.text = text
         self.ws = ws          # trivia in front of the token
         self.line = line      # 1-based line in the originating file
         self.src = src        # originating file (provenance) or None for generated text
+        self.pos = None       # character offset of the token in the text it was lexed from
     def __repr__(self):
         return "Tok(%s,%r,l%d)" % (self.kind, self.text, self.line)
     def clone(self, text=None, ws=None):
-        return Tok(self.kind, self.text if text is None else text, self.ws if ws is None else ws, self.line, self.src)
+        t = Tok(self.kind, self.text if text is None else text, self.ws if ws is None else ws, self.line, self.src)
+        t.pos = self.pos
+        return t
 
 MULTI = ["..=", "...", "<<=", ">>=", "::", "->", "=>", "==", "!=", "<=", ">=", "&&", "||", "+=", "-=", "*=", "/=",
          "%=", "^=", "&=", "|=", ".."]
@@ -99,6 +102,15 @@ def lex(text, src=None):
                 toks.append(Tok("punct", mp, ws, line, src)); i += len(mp); break
         else:
             toks.append(Tok("punct", c, ws, line, src)); i += 1
+
+def with_pos(toks):
+    """fill in .pos (offset of the token text inside render(toks))"""
+    off = 0
+    for t in toks:
+        off += len(t.ws)
+        t.pos = off
+        off += len(t.text)
+    return toks
 
 def render(toks, trailing=""):
     return "".join(t.ws + t.text for t in toks) + trailing
